@@ -9,6 +9,8 @@ import (
 
 	"pgregory.net/rapid"
 
+	"github.com/bnb-chain/tss-lib/v2/tss"
+
 	"verif/harness/ev"
 	"verif/harness/ref"
 	"verif/harness/sim"
@@ -179,4 +181,14 @@ func init() {
 	// a party call that does not return is a violation of whatever property the case belongs to
 	// ("every call returns"); the simulator's watchdog reports it through the recorder of the case in flight
 	sim.OnHang = ev.ReportHang
+}
+
+// setGlobalCurve sets the deprecated process-global curve: the protocol's own curve, or (other) the curve
+// the protocol does not use. Protocols take their curve from the parameters, so this must not matter.
+func setGlobalCurve(edd, other bool) {
+	if edd != other {
+		tss.SetCurve(tss.Edwards())
+	} else {
+		tss.SetCurve(tss.S256())
+	}
 }
